@@ -497,6 +497,8 @@ def to_poly(t, symname=None, opaque=None):
             for _ in range(int(b.const_value())):
                 r = r * a
             return r
+        if op == "//" and b.is_const() and b.const_value().denominator == 1 and b.const_value() > 0 and _divisible(a, int(b.const_value())):
+            return a.div_const(b.const_value())  # exact: the numerator is a multiple of the divisor for all integer arguments
         if op in ("&", "|", "^", ">>", "%", "//") or op in ("<<", "**", "/"):
             return Poly.sym(symname(t))  # not polynomial: an opaque atom
         return None
@@ -510,6 +512,29 @@ def to_poly(t, symname=None, opaque=None):
     if opaque is not None and not opaque(t):
         return None
     return Poly.sym(symname(t))
+
+
+def _divisible(p: Poly, c: int) -> bool:
+    """Is the integer-coefficient polynomial p a multiple of c for every integer assignment?  (p mod c is periodic in each
+    variable with period c, so checking all residues decides it.)"""
+    import itertools
+
+    if any(v.denominator != 1 for v in p.t.values()):
+        return False
+    syms = sorted(p.symbols())
+    if len(syms) > 4 or c > 16:
+        return False
+    for vals in itertools.product(range(c), repeat=len(syms)):
+        env = dict(zip(syms, vals))
+        total = 0
+        for mono, coef in p.t.items():
+            term = int(coef)
+            for m in mono:
+                term *= env[m]
+            total += term
+        if total % c:
+            return False
+    return True
 
 
 # ============================================================================ byte concatenations
